@@ -332,6 +332,9 @@ func runCaseOnce(c *vlib.Ctx, prop string, idx, attempt int, self, bin, casesRoo
 	if cs.ViaHandlers {
 		c.Count("handler_cases", 1)
 	}
+	if cs.AgentDown != nil {
+		c.Count("agent_down_cases", 1)
+	}
 	if cs.UserName != "" {
 		c.Count("user_cases", 1)
 		if cs.JudgeSurvivors {
@@ -359,6 +362,8 @@ func runCaseOnce(c *vlib.Ctx, prop string, idx, attempt int, self, bin, casesRoo
 			}
 		}
 		switch e.Ev {
+		case "update-lost":
+			c.Count("status_updates_refused_by_the_agent_link", 1)
 		case "op-start":
 			c.Count("requests", 1)
 			side := "nostart"
